@@ -158,6 +158,7 @@ var shardTable = map[string]int{
 	"C05/hist/len4-mode0-delayfalse": 4, "C05/hist/len4-mode0-delaytrue": 4, "C05/hist/len4-mode1-delayfalse": 4, "C05/hist/len4-mode1-delaytrue": 4,
 	"C05/hist/lifecycle-handler-panics-mode0": 4, "C05/hist/lifecycle-handler-panics-mode1": 4,
 	"C05/hist/lifecycle-handler-panics-seq-mode0": 8, "C05/hist/lifecycle-handler-panics-seq-mode1": 8,
+	"C06/hist/exhaust-mode0": 4, "C06/hist/exhaust-mode1": 6,
 	"C06/hist/exhaust-long-mode0": 4, "C06/hist/exhaust-long-mode1": 4,
 	"C08/engine/tree-shutdown": 8, "C08/engine/tree-shutdown-large": 6,
 	"C08/engine/child-self-stop-races-shutdown": 2, "C08/engine/child-crash-races-shutdown": 2,
